@@ -459,7 +459,10 @@ func runC12(e *env) error {
 	if err := c12RealPath(e); err != nil {
 		return err
 	}
-	return runConsumers(e)
+	if err := runConsumers(e); err != nil {
+		return err
+	}
+	return runSiblings(e)
 }
 
 func hasLoaderLine(sc *settingsCase) bool {
